@@ -170,3 +170,25 @@ def run(ctx):
     def classify(c, impl):
         return ["op:" + s.split()[0] for s in c.split(SEP)[1:]]
     ctx.diff_domain("node", cases, oracle=oracle, nontrivial=lambda c, i: c if c.count("rpc ") >= 2 else None, classify=classify)
+
+    # calls made on a node before and after Node::start (connect and rpc_call do not need a started node): the reply
+    # identifiers come from one allocator whose numbering start must not restart — with the port mapper handing out the
+    # placeholder creation 1 a restarted numbering files a later call under the identifier of an earlier one, whose late
+    # reply it would then take for its own
+    mix = ["nodemix 1 a a s a a", "nodemix 1 a s a", "nodemix 7 a a s a", "nodemix 1 s a a", "nodemix 1 a a a s a a"]
+
+    def mix_oracle(case, impl):
+        if impl.startswith(("PANIC", "CRASH", "TIMEOUT", "start-err", "connect-err", "peer-handshake-failed")):
+            return ("violation", "the node did not get through the script: " + impl[:60])
+        ids = impl.split()
+        if "none" in ids or len(ids) != case.split().count("a"):
+            return ("violation", "a call did not reach the peer: " + impl[:60])
+        if len(set(ids)) != len(ids):
+            return ("violation", "two calls of one node wait under the same reply identifier (%s): the reply to one is taken for the other's" % impl)
+        cr = case.split()[1]
+        after = case.split()[2:].index("s")
+        for k, i in enumerate(ids):
+            if k >= after and i.split(".")[2] != cr:
+                return ("violation", "call %d, made after Node::start, waits under creation %s; the node's creation is %s" % (k, i.split(".")[2], cr))
+        return None
+    ctx.diff_domain("node", mix, oracle=mix_oracle, nontrivial=lambda c, i: c, classify=lambda c, i: ["op:rpc-before-start" if c.split()[2] == "a" else "op:rpc-after-start"])
